@@ -51,6 +51,9 @@ def _heuristic(ctx: Ctx):
                     else:
                         f = None
                     if f is None:
+                        from .. import rules as _rules
+                        f = _rules.resolve_callable(ctx.repo, fn, h)  # a lambda, a partial, an imported function
+                    if f is None:
                         raise AnalysisError(f"A* heuristic `{flow.dump(h)[:60]}` cannot be resolved to a function")
                     return flow.dump(h), f
     raise AnalysisError("OSMRoadNetwork.route: no astar_path call with a heuristic")
